@@ -21,6 +21,7 @@ import math
 import random as pyrandom
 from fractions import Fraction
 from types import SimpleNamespace
+from itertools import combinations
 
 from vcheck import Ctx, f2hex, hex2f, q2s
 from frame.geometry.geometry import Point, Shape, Rectangle
@@ -152,49 +153,81 @@ def yaml_text(inp: dict) -> str:
     return "Modules: {\n" + ",\n".join(lines) + "\n}\nNets: [" + nets + "]\n"
 
 
-class DrawRecorder:
-    """stands in for the `random` module inside spectral_algorithm: records what uniform returned."""
-
-    def __init__(self):
-        self.draws: list[float] = []
-
-    def uniform(self, a, b):
-        v = pyrandom.uniform(a, b)
-        self.draws.append(v)
-        return v
-
-    def __getattr__(self, name):
-        return getattr(pyrandom, name)
+def note_missing(ctx, what: str) -> None:
+    """an internal observation point is not there (renamed / restructured): say so once, never fail."""
+    msg = f"observation point {what} not available: internal-stage correspondence skipped; public behaviour still compared"
+    if ctx is not None and msg not in ctx.notes:
+        ctx.notes.append(msg)
+        ctx.extra.setdefault("observation_points_missing", []).append(what)
 
 
 class Patched:
-    """patch spectral_algorithm.random, spectral.spectral_layout_die and spectral_algorithm.normalize for one run."""
+    """observation hooks for one run, each optional: the values returned by random.uniform (patched in the `random`
+    module itself, and under the name `uniform` if spectral_algorithm imported it that way), every result of
+    spectral_layout_die as seen from spectral.py, and every call of normalize."""
+
+    def __init__(self, ctx=None):
+        self.ctx = ctx
 
     def __enter__(self):
-        self.rec = DrawRecorder()
+        self.rec = SimpleNamespace(draws=[])
         self.trials = []
         self.delta_hits = 0
         self.norm_calls = 0
-        self._random, self._sld, self._norm = SA.random, SP.spectral_layout_die, SA.normalize
-        SA.random = self.rec
+        self._undo = []
+        real_uniform = pyrandom.uniform
 
-        def norm(x, max_span, is_fixed):
-            self.norm_calls += 1
-            if any((not is_fixed[i]) and abs(x[i]) <= 10e-10 for i in range(len(x))):
-                self.delta_hits += 1
-            return self._norm(x, max_span, is_fixed)
+        def uniform(a, b):
+            v = real_uniform(a, b)
+            self.rec.draws.append(v)
+            return v
 
-        def sld(*a):
-            r = self._sld(*a)
-            self.trials.append(r)
-            return r
-        SA.normalize = norm
-        SP.spectral_layout_die = sld
+        def patch(obj, name, new):
+            self._undo.append((obj, name, getattr(obj, name)))
+            setattr(obj, name, new)
+        patch(pyrandom, "uniform", uniform)
+        if callable(getattr(SA, "uniform", None)):
+            patch(SA, "uniform", uniform)
+        real_norm = getattr(SA, "normalize", None)
+        if callable(real_norm):
+            def norm(x, max_span, is_fixed, *a, **kw):
+                self.norm_calls += 1
+                try:
+                    if any((not is_fixed[i]) and abs(x[i]) <= 10e-10 for i in range(len(x))):
+                        self.delta_hits += 1
+                except Exception:
+                    pass
+                return real_norm(x, max_span, is_fixed, *a, **kw)
+            patch(SA, "normalize", norm)
+        else:
+            note_missing(self.ctx, "spectral_algorithm.normalize (hook)")
+        self.sld_hooked = False
+        for holder in (SP, SA):
+            real = getattr(holder, "spectral_layout_die", None)
+            if callable(real):
+                def sld(*a, _real=real, _outer=(holder is SP), **kw):
+                    r = _real(*a, **kw)
+                    if _outer or not getattr(SP, "spectral_layout_die", None):
+                        self.trials.append(r)
+                    return r
+                patch(holder, "spectral_layout_die", sld)
+                self.sld_hooked = True
+        if not callable(getattr(SP, "spectral_layout_die", None)) and not self.sld_hooked:
+            note_missing(self.ctx, "spectral_layout_die (hook)")
         return self
 
     def __exit__(self, *exc):
-        SA.random, SP.spectral_layout_die, SA.normalize = self._random, self._sld, self._norm
+        for obj, name, old in reversed(self._undo):
+            setattr(obj, name, old)
         return False
+
+
+def trial_iters(trials) -> list:
+    """iteration counts of the recorded trials (best effort: the record is an internal of the run)."""
+    try:
+        return [list(t[2]) for t in trials]
+    except Exception:
+        return []
 
 
 def mods_tokens(spec) -> list[str]:
@@ -274,20 +307,17 @@ def check_layout_run(ctx: Ctx, inp: dict, judge: bool = True) -> None:
     radius = {m.name: math.sqrt(m.area() / math.pi) for m in spec.modules}
     pyrandom.seed(inp["seed"])
     exc = None
-    with Patched() as p:
+    with Patched(ctx) as p:
         try:
             spec.spectral_layout(Shape(W, H), nf, False)
         except Exception as ex:
             exc = ex
     ctx.case("slayout", (tuple(tok0), W, H, nf, inp["seed"]), True,
-             sample={"n": n, "nfl": nf, "seed": inp["seed"], "iters": [t[2] for t in p.trials][:2]})
+             sample={"n": n, "nfl": nf, "seed": inp["seed"], "iters": trial_iters(p.trials)[:2]})
     ctx.extra["normalize_calls_watched"] = ctx.extra.get("normalize_calls_watched", 0) + p.norm_calls
     ctx.extra["normalize_calls_in_delta_region"] = ctx.extra.get("normalize_calls_in_delta_region", 0) + p.delta_hits
-    for t in p.trials:
-        if 10000 in t[2]:
-            ctx.count("trial-hit-10000-iterations")
-        else:
-            ctx.count("trial-converged")
+    for it in trial_iters(p.trials):
+        ctx.count("trial-hit-10000-iterations" if 10000 in it else "trial-converged")
     # ---- model
     req = "F slayout " + " ".join(tok0) + f" {f2hex(W)} {f2hex(H)} {nf} {vec(p.rec.draws)} 10000"
     rep = ctx.model([req])
@@ -326,19 +356,27 @@ def check_layout_run(ctx: Ctx, inp: dict, judge: bool = True) -> None:
     if not judge:
         return
     # ---- clauses
-    if len(p.trials) != max(nf, 1):
-        ctx.spec_fail("layout:trial-count", inp, {"trials": len(p.trials)}, size=n)
-        return
-    best = 0
-    for i, t in enumerate(p.trials):
-        if t[1] < p.trials[best][1]:
-            best = i
-    bc = p.trials[best][0]
+    bc = None
+    try:
+        if p.trials or p.sld_hooked:
+            if len(p.trials) != max(nf, 1):
+                ctx.spec_fail("layout:trial-count", inp, {"trials": len(p.trials)}, size=n)
+                return
+            best = 0
+            for i, t in enumerate(p.trials):
+                if t[1] < p.trials[best][1]:
+                    best = i
+            bc = p.trials[best][0]
+            _ = [(bc[0][i], bc[1][i]) for i in range(len(spec.modules))]
+    except (AttributeError, TypeError, IndexError, KeyError):  # the trial record has another shape: an internal matter
+        bc = None
+    if bc is None:
+        note_missing(ctx, "per-trial results of spectral_layout_die inside spectral_layout")
     after = snapshot(spec)
     if after != before:
         ctx.spec_fail("layout:areas-nets-unchanged", inp, {"before": str(before)[:300], "after": str(after)[:300]}, size=n)
     for i, m in enumerate(spec.modules):
-        exp_c = (bc[0][i] + W / 2, bc[1][i] + H / 2)
+        exp_c = None if bc is None else (bc[0][i] + W / 2, bc[1][i] + H / 2)
         tol = 1e-9 * size
         if m.is_fixed:
             if rect_pos(m) != pos0[m.name]:
@@ -366,15 +404,15 @@ def check_layout_run(ctx: Ctx, inp: dict, judge: bool = True) -> None:
             A = sum(Fraction(r.shape.w) * Fraction(r.shape.h) for r in rs)
             px = float(sum(Fraction(r.center.x) * Fraction(r.shape.w) * Fraction(r.shape.h) for r in rs) / A)
             py = float(sum(Fraction(r.center.y) * Fraction(r.shape.w) * Fraction(r.shape.h) for r in rs) / A)
-            if abs(px - exp_c[0]) > tol or abs(py - exp_c[1]) > tol:
+            if exp_c is not None and (abs(px - exp_c[0]) > tol or abs(py - exp_c[1]) > tol):
                 ctx.spec_fail("layout:hard-centroid-is-centre", inp, {"module": m.name, "centroid": [px, py], "centre": list(exp_c)}, size=n)
         else:
             if rect_pos(m) != pos0[m.name]:
                 ctx.spec_fail("layout:soft-rectangles-untouched", inp, {"module": m.name}, size=n)
             c = m.center
-            if c is None or (c.x, c.y) != exp_c:
-                ctx.spec_fail("layout:best-of-n", inp, {"module": m.name, "centre": str(c), "expected": list(exp_c),
-                                                        "wl": [t[1] for t in p.trials]}, size=n)
+            if c is None or (exp_c is not None and (c.x, c.y) != exp_c):
+                ctx.spec_fail("layout:best-of-n", inp, {"module": m.name, "centre": str(c), "expected": None if exp_c is None else list(exp_c),
+                                                        "trials": len(p.trials)}, size=n)
                 continue
             px, py = c.x, c.y
         r = radius[m.name]
@@ -395,41 +433,73 @@ def check_sld(ctx: Ctx, inp: dict) -> None:
         ctx.count("build-rejected:" + type(ex).__name__)
         return
     W, H = inp["W"], inp["H"]
-    fixed = list(spec._fixed_modules)
-    init = [[-1.0 if (v is None and not fixed[i]) else (spec._centers[d][i] if v is None else float(v))
+    # inputs of the public function spectral_layout_die, built from the public netlist API (clique model of the README)
+    mods_ = list(spec.modules)
+    idx = {m.name: i for i, m in enumerate(mods_)}
+    fixed = [bool(m.is_fixed) for m in mods_]
+    mass = [float(m.area()) for m in mods_]
+    cen = [[(m.center.x if m.center is not None else -1.0) for m in mods_], [(m.center.y if m.center is not None else -1.0) for m in mods_]]
+    h_adj = [[] for _ in mods_]
+    for e in spec.edges:
+        w = 2 * e.weight / len(e.modules)
+        for m1, m2 in combinations(e.modules, 2):
+            a, b = idx[m1.name], idx[m2.name]
+            h_adj[a].append(AdjEdge(b, w))
+            h_adj[b].append(AdjEdge(a, w))
+    init = [[-1.0 if (v is None and not fixed[i]) else (cen[d][i] if v is None else float(v))
              for i, v in enumerate(inp["init"][d])] for d in range(2)]
+    sld_fn = getattr(SA, "spectral_layout_die", None)
+    if not callable(sld_fn):
+        note_missing(ctx, "spectral_algorithm.spectral_layout_die")
+        return
     pyrandom.seed(inp["seed"])
-    with Patched() as p:
+    with Patched(ctx) as p:
         try:
-            coord, wl, iters = SA.spectral_layout_die(spec._adj, spec._mass, [W, H], init, fixed)
+            coord, wl, iters = sld_fn(h_adj, mass, [W, H], init, fixed)
             impl = None
         except Exception as ex:
             impl = err_of(ex)
-    req = (f"F sld {adj_tokens(spec._adj)} {vec(spec._mass)} {f2hex(W)} {f2hex(H)} {vec(init[0])} {vec(init[1])} "
+    req = (f"F sld {adj_tokens(h_adj)} {vec(mass)} {f2hex(W)} {f2hex(H)} {vec(init[0])} {vec(init[1])} "
            f"{bools(fixed)} {vec(p.rec.draws)} 10000")
     ctx.case("sld", req, True)
-    idx = {m.name: i for i, m in enumerate(spec.modules)}
     net_t = [str(len(spec.edges))]
     for e in spec.edges:
         net_t += [str(len(e.modules))] + [str(idx[b.name]) for b in e.modules] + [f2hex(e.weight)]
-    rep2 = ctx.model([req, f"F adj {len(spec.modules)} " + " ".join(net_t)])
+    rep2 = ctx.model([req, f"F adj {len(mods_)} " + " ".join(net_t)])
     if rep2 is None:
         return
     rep = rep2[:1]
-    # _build_graph (clique model): adjacency lists entry by entry
-    impl_adj = " | ".join(" ".join(f"{e.node} {f2hex(e.weight)}" for e in es) for es in spec._adj)
-    ctx.case("adj", impl_adj, True)
-    if rep2[1] != impl_adj:
-        ma = [[(int(t[i]), hex2f(t[i + 1])) for i in range(0, len(t), 2)] for t in (part.split() for part in rep2[1].split(" | "))] \
-            if not rep2[1].startswith("err") else None
-        ia = [[(e.node, e.weight) for e in es] for es in spec._adj]
-        same = ma is not None and len(ma) == len(ia) and all(
-            len(a) == len(b) and all(x[0] == y[0] and abs(x[1] - y[1]) <= 1e-12 * max(1.0, abs(y[1])) for x, y in zip(a, b))
-            for a, b in zip(ma, ia))
-        if same:
-            ctx.drift += 1
-        else:
-            ctx.disagree("adj", inp, str(ia)[:300], rep2[1][:300], size=n)
+    # internal stage (optional observation points): the graph the class built for itself vs the model's clique model
+    try:
+        p_adj, p_mass, p_fixed = getattr(spec, "_adj", None), getattr(spec, "_mass", None), getattr(spec, "_fixed_modules", None)
+        ia = None if p_adj is None else [[(int(e.node), float(e.weight)) for e in es] for es in p_adj]
+        p_mass = None if p_mass is None else [float(v) for v in p_mass]
+        p_fixed = None if p_fixed is None else [bool(v) for v in p_fixed]
+    except (AttributeError, TypeError, ValueError):
+        ia = p_mass = p_fixed = None
+    if ia is None:
+        note_missing(ctx, "Spectral._adj")
+    else:
+        impl_adj = " | ".join(" ".join(f"{a} {f2hex(w)}" for a, w in es) for es in ia)
+        ctx.case("adj", impl_adj, True)
+        if rep2[1] != impl_adj:
+            ma = [[(int(t[i]), hex2f(t[i + 1])) for i in range(0, len(t), 2)] for t in (part.split() for part in rep2[1].split(" | "))] \
+                if not rep2[1].startswith("err") else None
+            same = ma is not None and len(ma) == len(ia) and all(
+                len(a) == len(b) and all(x[0] == y[0] and abs(x[1] - y[1]) <= 1e-12 * max(1.0, abs(y[1])) for x, y in zip(a, b))
+                for a, b in zip(ma, ia))
+            if same:
+                ctx.drift += 1
+            else:
+                ctx.disagree("adj", inp, str(ia)[:300], rep2[1][:300], size=n)
+    if p_mass is None:
+        note_missing(ctx, "Spectral._mass")
+    elif len(p_mass) != len(mass) or any(abs(a - b) > 1e-12 * max(1.0, abs(b)) for a, b in zip(p_mass, mass)):
+        ctx.disagree("mass", inp, p_mass, mass, size=n)
+    if p_fixed is None:
+        note_missing(ctx, "Spectral._fixed_modules")
+    elif p_fixed != fixed:
+        ctx.disagree("fixed-flags", inp, p_fixed, fixed, size=n)
     if impl is not None or rep[0].startswith("err"):
         if rep[0] != impl:
             ctx.disagree("sld", inp, impl or "returned", rep[0][:200], size=n)
@@ -553,11 +623,11 @@ def check_units(ctx: Ctx) -> None:
             c = (rng.uniform(0, 10), rng.uniform(0, 10))
         m = Module("H", hard=True)
         for r in rs:
-            m.add_rectangle(Rectangle(center=Point.__new__(Point), shape=Shape(r[2], r[3])))
-            pt = m.rectangles[-1].center
-            pt._x, pt._y = r[0], r[1]
-        cp = Point.__new__(Point)
-        cp._x, cp._y = c
+            pt = Point()
+            pt.x, pt.y = r[0], r[1]  # public setters: exact (Fraction) coordinates are allowed through them
+            m.add_rectangle(Rectangle(center=pt, shape=Shape(r[2], r[3])))
+        cp = Point()
+        cp.x, cp.y = c
         m.center = cp
 
         def f():
